@@ -175,13 +175,25 @@ DstHeaders ==
     \cup {D!EncDigits(<<d, 0, 0, 0, 0, 0, 0, 0, 0, 0, 1>>, 11) : d \in {0, 2}}       \* d + 2^70
     \cup {D!EncDigits(<<0, 0, 0, 0, 0, 32>>, 6)}                                     \* 2^40
 SrcHeaders == {<<2>>} \cup {D!EncDigits(<<2>>, k) : k \in {2, 10, 11}}
+\* every copy opcode 0x80|mask with its operand bytes (offset byte 0 = o0, size byte 0 = s0, the
+\* other present operand bytes 0), alone or followed by an insert
+CopyOp(mask, o0, s0) ==
+    LET val == <<o0, 0, 0, 0, s0, 0, 0>> IN
+    <<128 + mask>> \o Flatten([k \in 1..7 |-> IF D!Bit(mask, k - 1) THEN <<val[k]>> ELSE <<>>])
+MaskDeltas ==
+    {<<2, d>> \o CopyOp(m, o0, s0) \o tl :
+        d \in 1..3, m \in 0..127, o0 \in {0, 1}, s0 \in {1, 2}, tl \in {<<>>, <<1, 120>>}}
 DeltaXInit ==
-    \E sh \in SrcHeaders : \E dh \in DstHeaders : \E ops \in SeqsUpTo(OpTemplates, MaxLen) :
+    \/ \E sh \in SrcHeaders : \E dh \in DstHeaders : \E ops \in SeqsUpTo(OpTemplates, MaxLen) :
         /\ (sh # <<2>> => Len(dh) = 1 /\ Len(ops) <= 1)
         /\ (Len(dh) > 1 => Len(ops) <= 2)
         /\ inp = <<BaseOf(2), sh \o dh \o Flatten(ops)>>
         /\ exp = DeltaJudge(BaseOf(2), sh \o dh \o Flatten(ops))
         /\ ok = D!RefSound(BaseOf(2), sh \o dh \o Flatten(ops))
+    \/ \E s \in MaskDeltas :
+        /\ inp = <<BaseOf(2), s>>
+        /\ exp = DeltaJudge(BaseOf(2), s)
+        /\ ok = D!RefSound(BaseOf(2), s)
 
 \* ---- "cdelta": every (base, target) over {a, b} with lengths <= MaxLen; exp = the reference
 \*      encoder's delta (a valid delta offered to the real decoders); lemma: it round-trips
@@ -239,6 +251,43 @@ BlocksNext ==
           /\ RleLen(inp[1]) + n <= 200
           /\ BlocksSet(Append(inp[1], <<c, n>>))
 
+\* ========================================================================= negative controls
+\* (the lemmas must bite: TLC has to report `Lemmas` violated on these two families)
+\* ---- "negorder": a name containing '/' breaks the equivalence of git's one-byte-lookahead
+\*      comparison with the name/ order (dir "a" vs file "a/b" compare equal in base_name_compare)
+NegOrderInit ==
+    \E s \in {<< <<<<97>>, "T">>, <<<<97, 47, 98>>, "F">> >>, << <<<<97>>, "F">>, <<<<97, 46>>, "F">> >>} :
+        /\ inp = <<s, 0>>
+        /\ exp = SortItems(s, FALSE)
+        /\ ok = \A i, j \in DOMAIN s : i # j => OrderLemma(s[i], s[j])
+\* ---- "negpyint": a model of what Python's int(text, 8) accepts (white space around, a sign, a
+\*      0o prefix, single underscores between digits) -- the defect model of F16: "the reference
+\*      accepts every mode text that int() accepts" must fail on the enumerated mode texts
+IsWs(c) == c \in {9, 10, 11, 12, 13, 32}
+RECURSIVE LStrip(_)
+LStrip(m) == IF m # <<>> /\ IsWs(m[1]) THEN LStrip(Tail(m)) ELSE m
+RECURSIVE RStrip(_)
+RStrip(m) == IF m # <<>> /\ IsWs(m[Len(m)]) THEN RStrip(SubSeq(m, 1, Len(m) - 1)) ELSE m
+PyDigits(d) ==
+    /\ d # <<>> /\ IsOct(d[1]) /\ IsOct(d[Len(d)])
+    /\ \A k \in DOMAIN d : IsOct(d[k]) \/ d[k] = 95
+    /\ \A k \in 1..(Len(d) - 1) : ~(d[k] = 95 /\ d[k + 1] = 95)
+PyIntAccepts(m) ==
+    LET s == RStrip(LStrip(m))
+        t == IF s # <<>> /\ s[1] \in {43, 45} THEN Tail(s) ELSE s
+        u == IF Len(t) >= 2 /\ t[1] = 48 /\ t[2] \in {111, 79}
+             THEN (IF Len(t) >= 3 /\ t[3] = 95 THEN SubSeq(t, 4, Len(t)) ELSE SubSeq(t, 3, Len(t)))
+             ELSE t
+    IN PyDigits(u)
+RefAcceptsMode(m) == ParseTree(m \o <<32, 97, 0>> \o Rep(115, 20), 20, FALSE)[1] = "ok"
+NegPyIntInit == inp = <<>> /\ exp = <<>> /\ ok = TRUE
+NegPyIntNext ==
+    /\ Len(inp) < MaxLen
+    /\ \E x \in ModeAlphabet :
+          /\ inp' = Append(inp, x)
+          /\ exp' = <<Bool(PyIntAccepts(Append(inp, x))), Bool(RefAcceptsMode(Append(inp, x)))>>
+          /\ ok' = (PyIntAccepts(Append(inp, x)) => RefAcceptsMode(Append(inp, x)))
+
 \* ========================================================================= selector sets
 \* (cfg files cannot hold tuples: defined here, substituted with <-)
 BisectSelQ == {<<0, 20>>, <<0, 32>>, <<1, 20>>, <<2, 20>>}
@@ -260,12 +309,15 @@ Init ==
       [] Fam = "merge"  -> MergeInit
       [] Fam = "istree" -> IsTreeInit
       [] Fam = "blocks" -> BlocksInit
+      [] Fam = "negorder" -> NegOrderInit
+      [] Fam = "negpyint" -> NegPyIntInit
 
 Next ==
     CASE Fam = "ptstr"  -> PtStrNext
       [] Fam = "ptmode" -> PtModeNext
       [] Fam = "delta"  -> DeltaNext
       [] Fam = "blocks" -> BlocksNext
+      [] Fam = "negpyint" -> NegPyIntNext
       [] OTHER -> FALSE /\ UNCHANGED vars
 
 Spec == Init /\ [][Next]_vars
